@@ -14,6 +14,7 @@ case = {'kind': stratum, 'lits': [lit, ...]}     lit = {'form': 'cn'|'sep'|'init
 import math
 import os
 import random
+import re
 import struct
 import tempfile
 from decimal import Decimal
@@ -31,13 +32,22 @@ MINN = 2.2250738585072014e-308
 
 # ------------------------------------------------------------------------------------------------
 # documents
-def cn_xml(lit):
+def cn_xml(lit, ent=None):
+    text, exp = lit['text'], lit['exp']
+    if ent is not None:
+        # the digits are declared once as internal XML entities and referenced from the number
+        ent.append(text)
+        text = '&n%d;' % (len(ent) - 1)
+        if exp is not None:
+            ent.append(exp)
+            exp = '&n%d;' % (len(ent) - 1)
     if lit['form'] == 'sep':
-        return '<cn cellml:units="dimensionless" type="e-notation">%s<sep/>%s</cn>' % (lit['text'], lit['exp'])
-    return '<cn cellml:units="dimensionless">%s</cn>' % lit['text']
+        return '<cn cellml:units="dimensionless" type="e-notation">%s<sep/>%s</cn>' % (text, exp)
+    return '<cn cellml:units="dimensionless">%s</cn>' % text
 
 
-def document(lits):
+def document(lits, entities=False):
+    ent = [] if entities else None
     vs = ['<variable name="t" units="second"/>',
           '<variable name="x" units="dimensionless" initial_value="%s"/>' % lits[0]['text']]
     eqs = ['<apply><eq/><apply><diff/><bvar><ci>t</ci></bvar><ci>x</ci></apply>'
@@ -47,8 +57,11 @@ def document(lits):
             vs.append('<variable name="c%d" units="dimensionless" initial_value="%s"/>' % (i, lit['text']))
         else:
             vs.append('<variable name="c%d" units="dimensionless"/>' % i)
-            eqs.append('<apply><eq/><ci>c%d</ci>%s</apply>' % (i, cn_xml(lit)))
-    return ('<?xml version="1.0"?><model name="m" xmlns="http://www.cellml.org/cellml/1.0#" '
+            eqs.append('<apply><eq/><ci>c%d</ci>%s</apply>' % (i, cn_xml(lit, ent)))
+    doctype = ''
+    if ent:
+        doctype = '<!DOCTYPE model [' + ''.join('<!ENTITY n%d "%s">' % (k, t) for k, t in enumerate(ent)) + ']>'
+    return ('<?xml version="1.0"?>' + doctype + '<model name="m" xmlns="http://www.cellml.org/cellml/1.0#" '
             'xmlns:cellml="http://www.cellml.org/cellml/1.0#"><component name="c">' + ''.join(vs)
             + '<math xmlns="http://www.w3.org/1998/Math/MathML">' + ''.join(eqs) + '</math></component></model>')
 
@@ -97,7 +110,7 @@ def run_impl(case):
     out = {'obs': [dict() for _ in lits], 'precs': [], 'load': None}
     fd, path = tempfile.mkstemp(suffix='.cellml')
     try:
-        os.write(fd, document(lits).encode())
+        os.write(fd, document(lits, case.get('entities', False)).encode())
         os.close(fd)
         try:
             m = cellmlmanip.load_model(path)
@@ -200,7 +213,7 @@ def judge(case, res):
 def small_case(case, idx, stage):
     if idx is None:
         return dict(case, stage=stage)
-    return {'kind': 'document', 'seed': case.get('seed'), 'strata': [], 'stage': stage,
+    return {'kind': 'document', 'seed': case.get('seed'), 'strata': [], 'stage': stage, 'entities': case.get('entities', False),
             'lits': [case['lits'][0]] + ([case['lits'][idx]] if idx else [])}
 
 
@@ -256,6 +269,26 @@ def plain_digits(x):
     return format(d, 'f')
 
 
+def point_variant(r, text):
+    """the same number written with a bare decimal point: '5.' / '5.e3' (no fraction digits), '.5' (no integer digits),
+    or with redundant zeros; all are legal decimal literals"""
+    t = text.strip()
+    m = re.fullmatch(r'([+-]?)([0-9]*)(?:\.([0-9]*))?((?:[eE][+-]?[0-9]+)?)', t)
+    if not m or not (m.group(2) or m.group(3)):
+        return text
+    sign, ip, fp, ex = m.group(1), m.group(2), m.group(3) or '', m.group(4)
+    v = r.randrange(4)
+    if v == 0 and fp.strip('0') == '' and ip:
+        return sign + ip + '.' + ex                      # 5.   5.e3
+    if v == 1 and ip.strip('0') == '' and fp:
+        return sign + '.' + fp + ex                      # .5
+    if v == 2:
+        return sign + '00' + (ip or '0') + ('.' + fp if fp else '') + ex
+    if v == 3 and ip:
+        return sign + ip + '.' + fp + '000' + ex
+    return text
+
+
 def spell(r, x, kind):
     """-> lit: one spelling whose nearest double is (usually) x"""
     form = r.choice(['cn', 'cn', 'sep', 'sep', 'init'])
@@ -294,6 +327,8 @@ def spell(r, x, kind):
         text = ' ' * r.randint(0, 2) + repr(x) + r.choice(['', ' ', '\n  '])
     if text.strip() in ('inf', '-inf', 'nan') or not math.isfinite(float(text)):
         text = repr(x)
+    if form in ('cn', 'sep') and r.random() < 0.15:
+        text = point_variant(r, text)
     if form == 'sep':
         # mantissa must be a plain decimal; move the exponent (and a random shift) behind <sep/>
         d = Decimal(text.strip())
@@ -302,6 +337,8 @@ def spell(r, x, kind):
         mant = d.scaleb(-e)
         mtext = format(mant, 'f')
         pad = r.choice(['', ' ', '  '])
+        if r.random() < 0.15:
+            mtext = point_variant(r, mtext)
         return {'form': 'sep', 'text': pad + mtext, 'exp': pad + ('%+d' % e if r.random() < 0.3 else str(e)) + pad}
     return {'form': form, 'text': text, 'exp': None}
 
@@ -327,7 +364,7 @@ def gen_case(seed, nlits=12):
             lit = {'form': 'cn', 'text': repr(x), 'exp': None}
         lits.append(lit)
         kinds.append(k)
-    return {'kind': 'document', 'seed': seed, 'strata': kinds, 'lits': lits}
+    return {'kind': 'document', 'seed': seed, 'strata': kinds, 'lits': lits, 'entities': r.random() < 0.1}
 
 
 FIXED = [
@@ -344,7 +381,10 @@ FIXED = [
      {'form': 'cn', 'text': '123456789012345678', 'exp': None}, {'form': 'cn', 'text': '1.2345678901234567', 'exp': None},
      {'form': 'cn', 'text': '0.1234567890123456789012345', 'exp': None}, {'form': 'init', 'text': '1e23', 'exp': None},
      {'form': 'cn', 'text': '8.41e21', 'exp': None}, {'form': 'cn', 'text': '2.2250738585072014e-308', 'exp': None},
-     {'form': 'sep', 'text': '22250738585072014', 'exp': '-324'}, {'form': 'cn', 'text': '-0.0', 'exp': None}],
+     {'form': 'sep', 'text': '22250738585072014', 'exp': '-324'}, {'form': 'cn', 'text': '-0.0', 'exp': None},
+     {'form': 'cn', 'text': '5.', 'exp': None}, {'form': 'cn', 'text': '-12.', 'exp': None}, {'form': 'cn', 'text': '5.e3', 'exp': None},
+     {'form': 'cn', 'text': '.5', 'exp': None}, {'form': 'cn', 'text': '18014398509481985.', 'exp': None},
+     {'form': 'sep', 'text': '5.', 'exp': '3'}, {'form': 'sep', 'text': '-.25', 'exp': '-2'}, {'form': 'cn', 'text': '1.E-3', 'exp': None}],
 ]
 
 
